@@ -34,6 +34,8 @@ class World(fakenet.Endpoint):
         self.refused: list = []  # dials to addresses nobody listens on
         self.violations: list = []  # protocol-level oddities seen by the servers (plaintext to a TLS port, ...)
         self.serial = 0
+        self.origin_requests = 0
+        self.fault_plan: dict = {}  # index of the origin request (0-based, CONNECTs not counted) -> "reset" | "eof"
         self.unknown_identity = nulltls.Identity([("DNS", "unknown.invalid")], trusted=False, label="unknown")
 
     # ---- topology
@@ -129,6 +131,17 @@ class World(fakenet.Endpoint):
             entry.update(route="forward", origin=_origin_of_absolute(target.decode("latin-1")))
         else:
             entry.update(route="direct", origin=(lst["scheme"], lst["host"], lst["port"]))
+        idx = self.origin_requests
+        self.origin_requests += 1
+        fault = self.fault_plan.get(idx)
+        if fault is not None:
+            entry["faulted"] = fault
+            self.log.append(entry)
+            if fault == "reset":
+                sock.rx.append(("exc", ConnectionResetError(errno.ECONNRESET, "Connection reset by peer")))
+            else:
+                sock.rx.append(fakenet.EOF)
+            return
         self.log.append(entry)
         self.requests.append((sock.sid, msg))
         resp = self.handler(self, entry) or {"status": 200}
